@@ -32,9 +32,9 @@ theorem DBlame.of_el {fs : Bytes → Option Bytes} {d : Diag} {C : Cls} (h : Src
   exact ⟨data, lo, els, err, h1, h2, h3, .inl ⟨el, hel, hl.symm, hc.symm, hC ▸ hk⟩⟩
 
 def TaskSrcK (fs : Bytes → Option Bytes) (f : Option Bytes) : Task → Prop
-  | .data d _ => SrcElK fs d.file d.line d.col .dir
+  | .data d _ => SrcElK fs d.file d.line d.col (.dir (bytesOf d.du.name))
   | .instr i _ => SrcElK fs i.file i.line i.col .ins
-  | .globalCopy _ l c => ∃ f', f = some f' ∧ SrcElK fs f' l c .dir
+  | .globalCopy _ l c => ∃ f', f = some f' ∧ SrcElK fs f' l c (.dir (bytesOf "global"))
 
 structure PsrcK (fs : Bytes → Option Bytes) (cur up : Option Bytes) (st : St) : Prop where
   errs : ∀ d ∈ st.errors, DBlame fs d
@@ -45,20 +45,28 @@ theorem taskSrcK_of_at {fs : Bytes → Option Bytes} {t : Task} {f : Bytes} {l c
     (ht : t.at f l c) (hc : taskC C t = true) (hs : SrcElK fs f l c C) (hg : t.notCopy = true ∨ g = some f) :
     TaskSrcK fs g t := by
   cases t with
-  | data d b => obtain ⟨rfl, rfl, rfl⟩ := ht; cases C <;> first | exact hs | cases hc
+  | data d b =>
+    obtain ⟨rfl, rfl, rfl⟩ := ht
+    cases C with
+    | dir n => have e : bytesOf d.du.name = n := of_decide_eq_true hc; subst e; exact hs
+    | lbl => cases hc
+    | ins => cases hc
   | instr i b => obtain ⟨rfl, rfl, rfl⟩ := ht; cases C <;> first | exact hs | cases hc
   | globalCopy n l' c' =>
     obtain ⟨rfl, rfl⟩ := ht
     rcases hg with hg | hg
     · simp [Task.notCopy] at hg
-    · cases C <;> first | exact ⟨f, hg, hs⟩ | cases hc
+    · cases C with
+      | dir n => have e : bytesOf "global" = n := of_decide_eq_true hc; subst e; exact ⟨f, hg, hs⟩
+      | lbl => cases hc
+      | ins => cases hc
 
 theorem includeDirective_casesK {fs : Bytes → Option Bytes} {inc : Inc} {env : Env} {st : St} {line col : Nat}
     {args : List Arg} :
     ∀ st' r, includeDirective fs inc env st line col args = .ok (st', r) →
-      (∃ k, pushesC .dir k = true ∧ st' = st.push env line col k) ∨
+      (∃ k, pushesC (.dir (bytesOf "include")) k = true ∧ st' = st.push env line col k) ∨
       ∃ data path st1 r1, fs path = some data ∧ inc env st data path = .ok (st1, r1) ∧
-        (st' = st1 ∨ ∃ k, pushesC .dir k = true ∧ st' = st1.push env line col k) := by
+        (st' = st1 ∨ ∃ k, pushesC (.dir (bytesOf "include")) k = true ∧ st' = st1.push env line col k) := by
   unfold includeDirective
   splits
   all_goals (intro st' r h)
@@ -107,7 +115,7 @@ theorem statement_blame {fs : Bytes → Option Bytes} {enc : Encoder} {inc : Inc
   · obtain ⟨as, hv⟩ := hi
     have h' : includeDirective fs inc env st el.line el.col as.toList = .ok (st', r) := by
       simpa only [statement, hv, directive_include] using h
-    have hs' : SrcElK fs env.curName el.line el.col .dir := by rw [hv] at hs; exact hs
+    have hs' : SrcElK fs env.curName el.line el.col (.dir (bytesOf "include")) := by rw [hv] at hs; exact hs
     rcases includeDirective_casesK _ _ h' with ⟨k, hk, rfl⟩ | ⟨data, path, st1, r1, hfs, hcall, hst⟩
     · exact psrcK_pushIn hp k hk hs'
     · have p1 := hinc _ _ _ _ _ _ _ up hC hfs hp hcall
